@@ -52,7 +52,7 @@ PROPS = {
                 "attempts to schedule before the current simulated time; distinct = distinct program hash; non-trivial = >= 1 "
                 "handler-scheduled event and (non-zero start time or >= 1 past attempt)",
         "fault_probes": ["past_attempt", "past_root_attempt"],
-        "expected_probes": ["past_attempt", "past_root_attempt", "nonzero_start_time", "zero_delay_child", "tie_adjacent_pairs"],
+        "expected_probes": ["past_attempt", "past_root_attempt", "nonzero_start_time", "zero_delay_child", "tie_adjacent_pairs", "run_beyond_2_pow_64_ns"],
         "components": {"real": ["des::runtime::{Runtime, Builder, FutureEventSet}, des::time::SimTime, des-cqueue (real code)"],
                        "stub": ["Application / Event implementations: harness interpreter of the generated program"]},
         "assumptions": ["cqueue backend (default feature set)", "sampled programs, not exhaustive"],
